@@ -34,6 +34,25 @@ type LimitParallelRequests struct {
 	doObserve     DoObserveFunc
 	// only one request can be processed by one endpoint
 	endpointQueues *coapSync.Map[uint64, *endpointQueue]
+	// onWait is called before a request has to wait for one of the limits
+	onWait func()
+}
+
+// SetOnWait sets a function that is called whenever a request is about to wait for a limit. A
+// connection uses it to keep its receive loop going when the waiting request was issued by a handler.
+// It must be set before the first request.
+func (c *LimitParallelRequests) SetOnWait(onWait func()) {
+	c.onWait = onWait
+}
+
+func (c *LimitParallelRequests) acquireLimit(ctx context.Context) error {
+	if c.limit.TryAcquire(1) {
+		return nil
+	}
+	if c.onWait != nil {
+		c.onWait()
+	}
+	return c.limit.Acquire(ctx, 1)
 }
 
 // New creates new LimitParallelRequests. When limit, endpointLimit == 0, then limit is not used.
@@ -65,6 +84,7 @@ func hash(opts message.Options) uint64 {
 
 func (c *LimitParallelRequests) acquireEndpoint(ctx context.Context, endpointLimitKey uint64) error {
 	reqChan := make(chan struct{}) // channel is closed when request can be processed by releaseEndpoint
+	queued := false
 	_, _ = c.endpointQueues.LoadOrStoreWithFunc(endpointLimitKey, func(value *endpointQueue) *endpointQueue {
 		if value.processedCounter < c.endpointLimit {
 			close(reqChan)
@@ -72,6 +92,7 @@ func (c *LimitParallelRequests) acquireEndpoint(ctx context.Context, endpointLim
 			return value
 		}
 		value.orderedRequest = append(value.orderedRequest, reqChan)
+		queued = true
 		return value
 	}, func() *endpointQueue {
 		close(reqChan)
@@ -79,6 +100,9 @@ func (c *LimitParallelRequests) acquireEndpoint(ctx context.Context, endpointLim
 			processedCounter: 1,
 		}
 	})
+	if queued && c.onWait != nil {
+		c.onWait()
+	}
 	select {
 	case <-ctx.Done():
 		// A waiter that gives up owns no slot: it only leaves the queue. Releasing here would
@@ -132,7 +156,7 @@ func (c *LimitParallelRequests) Do(req *pool.Message) (*pool.Message, error) {
 		return nil, fmt.Errorf("cannot process request %v for client endpoint limit: %w", req, err)
 	}
 	defer c.releaseEndpoint(endpointLimitKey)
-	if err := c.limit.Acquire(req.Context(), 1); err != nil {
+	if err := c.acquireLimit(req.Context()); err != nil {
 		return nil, fmt.Errorf("cannot process request %v for client limit: %w", req, err)
 	}
 	defer c.limit.Release(1)
@@ -145,7 +169,7 @@ func (c *LimitParallelRequests) DoObserve(req *pool.Message, observeFunc func(re
 		return nil, fmt.Errorf("cannot process observe request %v for client endpoint limit: %w", req, err)
 	}
 	defer c.releaseEndpoint(endpointLimitKey)
-	err := c.limit.Acquire(req.Context(), 1)
+	err := c.acquireLimit(req.Context())
 	if err != nil {
 		return nil, fmt.Errorf("cannot process observe request %v for client limit: %w", req, err)
 	}
